@@ -2574,11 +2574,14 @@ func litStore(n *node) func(*frame, reflect.Value) {
 	if a := n.anc; a == nil || a.kind != defineStmt || a.nleft != 1 || a.child[0].findex != n.findex {
 		return func(f *frame, v reflect.Value) { value(f).Set(v) }
 	}
-	i, l, typ := n.findex, n.level, n.typ.frameType()
+	i, l := n.findex, n.level
 	return func(f *frame, v reflect.Value) {
-		nv := reflect.New(typ).Elem()
+		// The new storage has the type of the variable, which is an interface
+		// type when the variable is declared with one.
+		data := getFrame(f, l).data
+		nv := reflect.New(data[i].Type()).Elem()
 		nv.Set(v)
-		getFrame(f, l).data[i] = nv
+		data[i] = nv
 	}
 }
 
